@@ -11,5 +11,6 @@ CONSTANTS
   ProgChoices <- ChoicesCore2
   NoLock = {}
   LazyMap = TRUE
-INVARIANTS InitOnce
+INVARIANTS TypeOK MutualExclusion OwnerConsistent AtMostOneLockHeld UniqueScannerIds ReadStable StringPoolIdsFunctional LockedPoolConstant BuiltIffPublished
+PROPERTIES PoolAppendOnly Termination
 CHECK_DEADLOCK TRUE
